@@ -2,6 +2,7 @@ package yqlib
 
 import (
 	"bufio"
+	"container/list"
 	"encoding/xml"
 	"io"
 	"strings"
@@ -550,4 +551,19 @@ func VerifC11SelfReferences() {
 	ops := []string{".a.x", "explode(.)", "[..] | length", ".a | keys", ".a[]", "to_yaml", ".a | length", ".b.x", "to_props"}
 	_, _ = vEval(vParse(ops[verifChoice("op", len(ops))]), doc)
 	verifCover("C11/self-reference/end")
+}
+
+// VerifC11AppendixWithSplit: --front-matter=process together with --split-exp: the text after the front matter has no
+// result to name its file after. The printer must answer with an error (or write it), not crash.
+func VerifC11AppendixWithSplit() {
+	InitExpressionParser()
+	nameExp := vParse([]string{"$index", ".a", "\"out\""}[verifChoice("name", 3)])
+	pw := NewMultiPrinterWriter(nameExp, YamlFormat)
+	printer := NewPrinter(NewYamlEncoder(NewDefaultYamlPreferences()), pw)
+	printer.SetAppendix(strings.NewReader("body\n"))
+	// no results at all (an expression that selects nothing): the appendix is all there is to print
+	if err := printer.PrintResults(list.New()); err != nil {
+		verifCover("C11/appendix-split/error")
+	}
+	verifCover("C11/appendix-split/end")
 }
